@@ -14,6 +14,13 @@ THEOREMS = [("FlatModel.Props.C17", t) for t in (
     "FC.C17.no_growth_after_merge_capacity", "FC.C17.stack_no_growth_after_reserve", "FC.C17.stack_indices_fit",
     "FC.C17.with_capacity_indices")]
 THEOREMS += [("FlatModel.Props.UniverseHeap", "FC.Universe." + t) for t in ("C17_built_every_composition", "C17_fit_every_composition", "C17_merge_every_composition", "C17_merge_sources_every_composition", "C17_reserve_every_composition", "C17_clear_every_composition", "C17_log_growth_every_composition")]
+THEOREMS += [("FlatModel.Props.C17Grows", "FC.C17." + t) for t in (
+    "log_growth_keyed", "log_growth_heap", "appears_from_zero", "push_doubles_keyed", "pushes_keys_sublist", "no_changes_elsewhere",
+    "total_allocs_le", "total_allocs_le_heap", "log_growth_reach", "clear_keeps", "clear_keeps_exactly", "clear_exact_needs_anchor",
+    "columnsVec_not_cstep", "columns_all_tracked_false", "columnsVec_partial", "columnsVec_changes_le", "first_allocation")]
+THEOREMS += [("FlatModel.Props.UniverseGrows", "FC.Universe." + t) for t in (
+    "C17_keys_are_heap_uncoded", "C17_log_growth_uncoded", "C17_push_doubles_uncoded", "C17_total_uncoded", "C17_total_nocolumns",
+    "C17_bridge_vecSized", "C17_clear_keeps_uncoded", "C17_clear_exact_uncoded")]
 LEAN_TARGETS = ["FlatModel.Generated.CoveredHeap", "FlatModel.Generated.CoveredUniverseOps"]
 PROFILES = {"quick": ["checked"], "thorough": ["checked", "wrapping"], "search": ["checked"]}
 RULE = ("vector-backed structural entries (owned, string, slice with Vec indices, option, result, tuple, Vec-as-region) and FlatStacks "
